@@ -36,12 +36,17 @@ MANIFEST = {
                 "correspondence run, not proved).  Doubles are opaque in the theorems (any semantics of ==, casts, atof, printf %f): every "
                 "statement about the floating alternative is definitional, the double coercions are covered by the correspondence run "
                 "against Python floats (bit-exact for toDouble/atof, byte-exact for %f); about the driver's IEEE instance (Ieee.lean) only "
-                "which function is applied (toDouble_ieee), oddness, the ranges of the double->integer casts and reflexivity of == off NaN "
-                "are proved; that dOfInt is the correctly rounded conversion is an OPEN statement (kernel-evaluated boundary table + tie).  "
+                "the integer conversion is proved: toDouble() of bool/integers is dOfInt of the stored integer and dOfInt is the correctly "
+                "rounded conversion for every |n| < 2^64 (dOfInt_correctly_rounded: adjacent doubles, nothing between, nearer, ties to even, "
+                "exact to 2^53), plus oddness, the ranges of the double->integer casts and reflexivity of == off NaN; atof (dOfStr) and %f "
+                "(dToStr) are definitions, nothing proved, tied bit-/byte-exactly.  "
                 "The string rows: strtol/strtoul are Lean definitions of the documented glibc behaviour; proved against the positional "
                 "value for every numeral text (the *_numeral theorems) and inverted by printf for every integer (round trips); that glibc "
                 "behaves as documented is assumed and compared on every run.  self_append_creates_cycle covers list append/prepend, array "
-                "append and map append with a new key at any path; the element assignment form (probe e) and an existing map key are probe-only.  "
+                "append and map append with a new key at any path, self_assign_creates_cycle the element assignment forms (v.toList().back() = v, "
+                "map append on an existing key; modelled as clear-then-share, an order that commutes with the code's share-then-clear).  "
+                "`mut v <path> set <temporary containing v>` is refused by the model's precondition although the real code is correct there: "
+                "explored on the implementation against the value reference only (mutx).  "
                 "Lines refused by the model — self-append among them — are skipped on both sides in every 'for all histories' "
                 "statement.  libc parsers atoi/strtoul/atoll/strtoull are Lean definitions of the "
                 "glibc LP64 behaviour.  `refines` is proved for the variable-level model (elements inside payloads by value; below the root it reuses the "
